@@ -2,6 +2,7 @@ import NasdaqModel.Driver.Sexp
 import NasdaqModel.Model.GenSoupApp
 import NasdaqModel.Witness.C15
 import NasdaqModel.Witness.C15Enum
+import NasdaqModel.Witness.C15Defs
 /-
 Line protocol of the ITCH/OUCH/SQF generator model (C15).
 
@@ -18,7 +19,7 @@ Text is a list of code points `(99 112 …)`; an absent attribute is the atom `n
   gen.denote <impl> spec                   →  ok (schema …) | err <Err>
   gen.wf     <impl> spec                   →  true | false
   gen.table                                →  the datatype table, reserved names
-  witness C15                              →  ((<name> <impl> spec)*) — the regression specifications of `Witness/C15.lean`, `Witness/C15Enum.lean`
+  witness C15                              →  ((<name> <impl> spec)*) — the regression specifications of `Witness/C15.lean`, `Witness/C15Enum.lean`, `Witness/C15Defs.lean`
 -/
 namespace NasdaqModel.Driver.GenSoupAppD
 open NasdaqModel Sexp GenSoupApp
@@ -148,7 +149,13 @@ def witnesses : List (String × String × Spec) := [
   ("enum-name-value-overlap", "itch", Witness.C15Enum.overlap "char_ascii"),
   ("enum-name-value-overlap", "ouch", Witness.C15Enum.overlap "char_iso-8859-1"),
   ("enum-name-value-overlap", "sqf", Witness.C15Enum.minimal),
-  ("enum-name-value-disjoint", "itch", Witness.C15Enum.disjoint)]
+  ("enum-name-value-disjoint", "itch", Witness.C15Enum.disjoint),
+  -- references renamed to the name of ANOTHER definition, that definition referenced before and after (Witness/C15Defs.lean,
+  -- Props/C15Defs.lean)
+  ("def-reference-shadow", "itch", Witness.C15Defs.shadow),
+  ("def-reference-shadow", "ouch", Witness.C15Defs.shadow [Witness.C15Defs.ack, Witness.C15Defs.reject, Witness.C15Defs.cancel]),
+  ("def-reference-shadow", "sqf", Witness.C15Defs.shadowInRecord),
+  ("def-reference-fresh-names", "itch", Witness.C15Defs.freshNames)]
 
 def handle (op : String) (args : List Sexp) : Option String :=
   match op, args with
